@@ -32,6 +32,7 @@
 #include <orc/orcdebug.h>
 #include <orc/orcinternal.h>
 #include <orc/orcutils-private.h>
+#include <orc/orcverif.h>
 
 #ifdef HAVE_VALGRIND_VALGRIND_H
 #include <valgrind/valgrind.h>
@@ -679,6 +680,11 @@ orc_compiler_compile_program (OrcCompiler *compiler, OrcProgram *program, OrcTar
     free(compiler->vars[ORC_VAR_T1 + compiler->n_temp_vars + i].name);
     compiler->vars[ORC_VAR_T1 + compiler->n_temp_vars + i].name = NULL;
   }
+  ORC_VERIF_EMIT ("\"e\":\"CompilerExit\",\"res\":%d,\"ninsns\":%d,\"ntemp\":%d,\"ndup\":%d,"
+      "\"csize\":%d,\"lshift\":%d,\"ushift\":%d", result, compiler->n_insns,
+      compiler->n_temp_vars, compiler->n_dup_vars,
+      (int) (compiler->codeptr - compiler->code), compiler->loop_shift,
+      compiler->unroll_shift);
   free (compiler->code);
   compiler->code = NULL;
   if (compiler->output_insns) free (compiler->output_insns);
@@ -709,6 +715,11 @@ error:
     free(compiler->vars[ORC_VAR_T1 + compiler->n_temp_vars + i].name);
     compiler->vars[ORC_VAR_T1 + compiler->n_temp_vars + i].name = NULL;
   }
+  ORC_VERIF_EMIT ("\"e\":\"CompilerExit\",\"res\":%d,\"ninsns\":%d,\"ntemp\":%d,\"ndup\":%d,"
+      "\"csize\":%d,\"lshift\":%d,\"ushift\":%d", result, compiler->n_insns,
+      compiler->n_temp_vars, compiler->n_dup_vars,
+      compiler->code ? (int) (compiler->codeptr - compiler->code) : 0,
+      compiler->loop_shift, compiler->unroll_shift);
   free (compiler->code);
   compiler->code = NULL;
   if (compiler->output_insns) free (compiler->output_insns);
